@@ -26,7 +26,7 @@ from ..worlds import words as WW
 from comb_spec_searcher.rule_db import RuleDB, RuleDBForgetStrategy
 
 ID = "C14"
-QUICK_RUNS = 900
+QUICK_RUNS = 1600
 CHUNK = 20
 THOROUGH_BUDGET_S = 900
 WATCHDOG = 120.0
@@ -92,8 +92,14 @@ class Mirrors:
         self.n += 1
         if len(ends) == 1 and rule.is_two_way():
             self.two_way += 1
-        self.compare(f"insertion #{self.n} add({start}, {ends}, {rule.strategy!r})")
-        q = self.policy == "every" or (self.policy == "subset" and self.rng.random() < 0.3)
+        # the comparison is linear in the universe: after the first 150 insertions of a
+        # (rare) huge universe it is made at every 8th insertion only
+        if self.n <= 150 or self.n % 8 == 0:
+            self.compare(f"insertion #{self.n} add({start}, {ends}, {rule.strategy!r})")
+        if self.n <= 120:
+            q = self.policy == "every" or (self.policy == "subset" and self.rng.random() < 0.3)
+        else:
+            q = self.policy != "end" and self.rng.random() < 0.04
         if q:
             self.compare_has(f"after insertion #{self.n}")
 
